@@ -36,6 +36,7 @@ def check(src, rep):
     rep.guard(rule_unfinished, src, rep, km, counts)
     rep.guard(rule_get_key, src, rep, km, counts)
     rep.guard(c08.rule_k7, src, rep, counts)
+    rep.guard(rule_locale, src, rep, km, counts)
     # the decoder as Input drives it: bursts, keys cut by the read boundary, unget - the interpreted request histories of C08
     from . import c08sem
     rep.guard(c08sem.run, src, rep, counts)
@@ -46,6 +47,50 @@ def check(src, rep):
     rep.floor("curses table keys", len(km.curses), 30)
     rep.floor("prefixes", len(km.prefixes), 30)
     rep.floor("decoder evaluations", counts.get("get_key_cases", 0), 3000)
+
+
+def rule_locale(src, rep, km, counts):
+    """The encoding is the locale's at the time of the request: Inputs used one after the other in one process while the locale's
+    preferred encoding changes each decode in the encoding in force (nothing remembered from the first request of the process)."""
+    from .. import osmodel
+    from ..consteval import Record
+    from ..fold import new_interp
+    from ..objinterp import NativeFunc
+    f = src.func("input", "Input._send")
+    data = b"\xc3\xa9a"
+    alone = {}
+
+    def keys_under(it, osm, enc):
+        osm.encoding = enc
+        inp = it.new("input", "Input", in_stream=Record(fileno=NativeFunc(lambda a, k: 0), name="<stdin>"), paste_threshold=None)
+        mark = it.checkpoint()
+        it.callm(inp, "unget_bytes", data)
+        out = []
+        for _ in range(4):
+            r = it.callm(inp, "send", 0)
+            if r[0] == "opaque":
+                raise AnalysisError("Input.send outside the evaluated subset: %s" % r[1])
+            if r == ("ok", None):
+                break
+            out.append(r[1] if r[0] == "ok" else r)
+        if it.dirty(mark):
+            raise AnalysisError("Input.send: %s" % it.dirty(mark))
+        return out
+    for enc in ("latin-1", "utf-8", "ascii"):
+        it = new_interp(src)
+        osm = osmodel.OS()
+        osmodel.install(it, osm)
+        alone[enc] = keys_under(it, osm, enc)
+    for order in (("latin-1", "utf-8", "ascii", "latin-1"), ("utf-8", "latin-1"), ("ascii", "utf-8")):
+        it = new_interp(src)
+        osm = osmodel.OS()
+        osmodel.install(it, osm)
+        got = [(enc, keys_under(it, osm, enc)) for enc in order]
+        bad = [(enc, g) for enc, g in got if g != alone[enc]]
+        rep.case(True)
+        rep.ob("K7-encoding-in-force-at-the-time-of-the-request", f.where(), f.scope, "Inputs fed %r while the locale reports %s in turn" % (data, ", ".join(order)), not bad,
+               "under %s the keys are %s; in a fresh process under %s they are %s" % (bad[0][0] if bad else "", bad[0][1] if bad else "", bad[0][0] if bad else "", alone[bad[0][0]] if bad else ""),
+               witness={"order": list(order)})
 
 
 def rule_tables(src, rep, km, counts):
